@@ -99,7 +99,15 @@ def exHSubA : WModPA :=
    [⟨"p", .inp, some (1, 0), []⟩, ⟨"q", .out, none, [("mark", none)]⟩],
    [⟨"r", "wire", none, []⟩, ⟨"q", "wire", none, []⟩, ⟨"p", "wire", some (1, 0), []⟩],
    [⟨"g0", "LUT1", [], [], [("I0", .atom (.bit "p" 0)), ("O", .atom (.id "r"))]⟩]⟩,
-   [(.id "q", .id "r")], [("DEPTH", "4'h3"), ("MODE", "\"fast\"")]⟩
+   [(.id "q", .id "r")], [("[3:0] DEPTH", "4'h3"), ("MODE", "\"fast\"")]⟩
+
+theorem mkeyOK_plain (k : String) (h1 : splitKey k = none) (h2 : plainK k = true) (h3 : (k != "integer") = true) :
+    mkeyOK k = true := by
+  unfold mkeyOK; rw [h1]; simp only [plainK_sound k h2, h3, Bool.and_self]
+
+theorem mkeyOK_ranged (k : String) (l r : Int) (nm : String) (h1 : splitKey k = some (l, r, nm)) (hl : intK l = true)
+    (hr : intK r = true) (hn : plainK nm = true) : mkeyOK k = true := by
+  unfold mkeyOK; rw [h1]; simp only [intK_sound l hl, intK_sound r hr, plainK_sound nm hn, Bool.and_self]
 
 def exLUT1 : WLeafX := ⟨⟨"LUT1", [⟨"I0", .inp, none, []⟩, ⟨"O", .out, none, []⟩]⟩, [("cell", none)], [("INIT", "2'h1")]⟩
 def exBBX : WLeafX := ⟨⟨"BBX", [⟨"P", .undef, none, []⟩]⟩, [], []⟩
@@ -120,8 +128,8 @@ theorem exLUT1_ok : leafOKX (inoutifyX exLUT1) = true := by
       | exact P _ (by decide +kernel)
       | decide
       | simp
-  · simp only [mparamsOK, exLUT1, List.all_cons, List.all_nil, Bool.and_true, Bool.and_eq_true, bne_iff_ne, ne_eq, decide_eq_true_eq]
-    exact ⟨⟨plainK_sound _ (by decide +kernel), by decide⟩, by decide⟩
+  · simp only [mparamsOK, exLUT1, List.all_cons, List.all_nil, Bool.and_true, Bool.and_eq_true, decide_eq_true_eq]
+    exact ⟨mkeyOK_plain "INIT" (by decide +kernel) (by decide +kernel) (by decide), by decide⟩
   · decide +kernel
 
 theorem exHLeafU_ok : leafOK ⟨"BBX", [⟨"P", .inout, none, []⟩]⟩ = true := by
@@ -148,9 +156,8 @@ theorem modOKA_of (m : WModA) (h : modOK m.base.attrs m.base.name (m.base.ports.
 
 theorem exHMA_tokOK : tokOKA exHMA.toA = true := by
   apply modOKA_of _ _ (by
-    simp only [mparamsOK, exHMA, WModPA.toA, List.all_cons, List.all_nil, Bool.and_true, Bool.and_eq_true, bne_iff_ne, ne_eq,
-      decide_eq_true_eq]
-    exact ⟨⟨plainK_sound _ (by decide +kernel), by decide⟩, by decide⟩) (by decide +kernel)
+    simp only [mparamsOK, exHMA, WModPA.toA, List.all_cons, List.all_nil, Bool.and_true, Bool.and_eq_true, decide_eq_true_eq]
+    exact ⟨mkeyOK_plain "WIDTH" (by decide +kernel) (by decide +kernel) (by decide), by decide⟩) (by decide +kernel)
   have N : ∀ nm, nameK nm = true → nameTokB (nameT nm) nm = true := nameK_sound
   have P : ∀ t, plainK t = true → nameTokB t t = true := plainK_sound
   have I : ∀ i, intK i = true → intTokB i = true := intK_sound
@@ -167,9 +174,9 @@ theorem exHMA_tokOK : tokOKA exHMA.toA = true := by
 
 theorem exHSubA_tokOK : tokOKA exHSubA.toA = true := by
   apply modOKA_of _ _ (by
-    simp only [mparamsOK, exHSubA, WModPA.toA, List.all_cons, List.all_nil, Bool.and_true, Bool.and_eq_true, bne_iff_ne, ne_eq,
-      decide_eq_true_eq]
-    exact ⟨⟨⟨plainK_sound _ (by decide +kernel), by decide⟩, plainK_sound _ (by decide +kernel), by decide⟩, by decide⟩)
+    simp only [mparamsOK, exHSubA, WModPA.toA, List.all_cons, List.all_nil, Bool.and_true, Bool.and_eq_true, decide_eq_true_eq]
+    exact ⟨⟨mkeyOK_ranged "[3:0] DEPTH" 3 0 "DEPTH" (by decide +kernel) (by decide +kernel) (by decide +kernel) (by decide +kernel),
+      mkeyOK_plain "MODE" (by decide +kernel) (by decide +kernel) (by decide)⟩, by decide⟩)
     (by decide +kernel)
   have N : ∀ nm, nameK nm = true → nameTokB (nameT nm) nm = true := nameK_sound
   have P : ∀ t, plainK t = true → nameTokB t t = true := plainK_sound
